@@ -276,6 +276,15 @@ def hand_families():
         add("ext-empty-list-spaces", tgt, lambda n: "( 1.2 X-a (" + " " * n + "!")
         add("name-empty-list-spaces", tgt, lambda n: "( 1.2 NAME (" + " " * n + "!")
         add("ext-lists-two-values", tgt, lambda n: "( 1.2" + " X-a ( 'b'  'c' )" * (n // 17) + " !")
+    # repeated clauses (each grammar clause may appear once; a pattern that lets them repeat must still fail fast)
+    CL = {"schema-oc": [" SUP a", " ABSTRACT", " MUST x", " MAY y", " MUST ( x $ z )", " MAY ( y )", " OBSOLETE", " NAME 'n'", " DESC 'd'"],
+          "schema-at": [" SUP a", " EQUALITY e", " ORDERING o", " SUBSTR s", " SYNTAX 1.2", " SINGLE-VALUE", " COLLECTIVE", " USAGE dSAOperation", " NAME 'n'", " DESC 'd'"],
+          "schema-dcr": [" AUX a", " MUST x", " MAY y", " NOT z", " AUX ( a $ b )", " NOT ( z )", " OBSOLETE", " NAME 'n'", " DESC 'd'"]}
+    for tgt, clauses in CL.items():
+        for i, c1 in enumerate(clauses):
+            add(f"clause-repeated:{c1.split()[0]}", tgt, lambda n, c1=c1: "( 1.2" + c1 * max(1, n // len(c1)) + " !")
+            for c2 in clauses[i + 1:]:
+                add(f"clause-pair-repeated:{c1.split()[0]}+{c2.split()[0]}", tgt, lambda n, c1=c1, c2=c2: "( 1.2" + (c1 + c2) * max(1, n // len(c1 + c2)) + " !")
     add("sup-hyphens-then-fail", "schema-oc", lambda n: "( 1.2 SUP a" + "-a" * (n // 2) + " !")
     add("must-hyphens-then-fail", "schema-oc", lambda n: "( 1.2 MUST ( a" + "-b" * (n // 2) + " $ c ) !")
     add("equality-hyphens-then-fail", "schema-at", lambda n: "( 1.2 EQUALITY a" + "-a" * (n // 2) + " !")
